@@ -37,6 +37,29 @@ fn panics(a: &ShardArgs, idx: u64, hist: &[String]) -> bool {
 
 /// a response-shaped hostile fragment; `seq` is the sequence number of the request that is outstanding (if any)
 fn hostile_response(r: &mut Rng, max: usize, seq: Option<u8>) -> Vec<u8> {
+    if r.chance(1, 8) {
+        // file objects: any variation, count and length octets right or wrong, random inner bytes
+        let inner = r.range(0, 40) as usize;
+        let mut f = vec![0xC0 | seq.unwrap_or(0), ra::F_RESPONSE, 0, 0, 70, *r.pick(&[2u8, 3, 4, 5, 6, 7, 8, 1, 9]), 0x5B, *r.pick(&[1u8, 1, 1, 0, 2])];
+        let declared = match r.below(4) {
+            0 => r.u16(),
+            1 => inner as u16 + 1,
+            _ => inner as u16,
+        };
+        f.extend_from_slice(&declared.to_le_bytes());
+        f.extend(r.bytes(inner));
+        if r.chance(1, 3) {
+            // a plausible start of a status / transport object
+            let n = f.len().min(10 + 9);
+            for (i, b) in [0x0Du8, 0x0C, 0x0B, 0x0A, 0, 0, 0, 0x80].iter().enumerate() {
+                if 10 + i < n {
+                    f[10 + i] = *b;
+                }
+            }
+        }
+        f.truncate(max.max(4));
+        return f;
+    }
     let mut f = hostile_fragment(r, max);
     for _ in 0..6 {
         if f.len() >= 2 && (f[1] == ra::F_RESPONSE || f[1] == ra::F_UNSOL_RESPONSE) {
@@ -107,7 +130,7 @@ async fn scenario(a: &ShardArgs, idx: u64) {
         }
         n
     };
-    let state = match r.below(6) {
+    let state = match r.below(7) {
         0 => {
             // start-up completed, idle
             for _ in 0..12 {
@@ -174,6 +197,38 @@ async fn scenario(a: &ShardArgs, idx: u64) {
             }
             serve(&mut sim, &mut last_seq, false, false);
             "command-awaiting-reply"
+        }
+        6 => {
+            for _ in 0..12 {
+                if serve(&mut sim, &mut last_seq, true, false) == 0 {
+                    break;
+                }
+                settle().await;
+            }
+            // a file transfer: OPEN outstanding, or OPEN answered and the first block outstanding
+            sim.submit(0, if r.bool() { UserReq::ReadFile(64) } else { UserReq::GetFileInfo });
+            settle().await;
+            if r.bool() {
+                for x in sim.collect() {
+                    if let Rx::Fragment { bytes, .. } = x {
+                        if bytes.len() > 2 && bytes[1] == 25 {
+                            let mut o = vec![];
+                            o.extend_from_slice(&0x0A0B0C0Du32.to_le_bytes());
+                            o.extend_from_slice(&1000u32.to_le_bytes());
+                            o.extend_from_slice(&64u16.to_le_bytes());
+                            o.extend_from_slice(&0u16.to_le_bytes());
+                            o.push(0);
+                            let mut b = vec![70, 4, 0x5B, 1];
+                            b.extend_from_slice(&(o.len() as u16).to_le_bytes());
+                            b.extend(o);
+                            sim.send_from(OUT, &ra::B::response(ra::FIR | ra::FIN | (bytes[0] & 15), false, 0, 0).raw(&b).done());
+                            settle().await;
+                        }
+                    }
+                }
+            }
+            serve(&mut sim, &mut last_seq, false, false);
+            "file-step-awaiting-reply"
         }
         _ => {
             for _ in 0..12 {
